@@ -1543,7 +1543,7 @@ def c16e(chk):
                 # a failing statistic leaves without reaching the write; the write follows the exhausted loop
                 after_bad = ws.reachable_from(bad)
                 ok = all(w_ not in after_bad and w_ not in it.loop_blocks and an.dominated_by_edge(ws, it.switch_bb, it.none_t, w_) for w_ in wbs) and \
-                    sorted(IT.chain_names(it.chain())) == ["iter"]
+                    sorted(n_ for n_ in IT.chain_names(it.chain()) if n_ not in ("into_iter", "deref", "as_slice")) in ([], ["iter"])
                 why = "%s: failure leaves without writing=%s, write only after the last statistic=%s" % (it.describe(), all(w_ not in after_bad for w_ in wbs), all(an.dominated_by_edge(ws, it.switch_bb, it.none_t, w_) for w_ in wbs))
             else:
                 # closure returning Result, collected into Result<Vec<_>, _> whose success edge dominates the write
